@@ -66,7 +66,7 @@ pub fn gen_arg(rng: &mut Rng, names: &[String], depth: usize) -> G {
             G::Union((0..n).map(|_| gen_arg(rng, names, depth - 1)).collect())
         }
         6 => G::Table(vec![gen_arg(rng, names, depth - 1), gen_arg(rng, names, depth - 1)]),
-        _ => gen_atom(rng, names),
+        _ => gen_arg(rng, names, 0),
     }
 }
 
